@@ -15,6 +15,8 @@ import (
 	"fmt"
 	"net/http"
 	"net/http/httptest"
+	"os"
+	"os/exec"
 	"sort"
 	"strings"
 	"sync"
@@ -43,9 +45,9 @@ var (
 )
 
 func theProfile() *profile.Profile {
-	f := vlib.AFn{Name: "f", Sys: "f", File: "a.c", Start: 1}
-	g := vlib.AFn{Name: "g", Sys: "g", File: "a.c", Start: 5}
-	h := vlib.AFn{Name: "h", Sys: "h", File: "b.c", Start: 7}
+	f := vlib.AFn{Name: "f", Sys: "f", File: "/build/proj/src/a.c", Start: 1}
+	g := vlib.AFn{Name: "g", Sys: "g", File: "/build/proj/src/a.c", Start: 5}
+	h := vlib.AFn{Name: "h", Sys: "h", File: "/build/proj/lib/b.c", Start: 7}
 	m := vlib.AMap{Build: "B01", File: "bin", Start: 16, Size: 8}
 	lf := vlib.ALoc{Map: m, Rel: 3, Lines: []vlib.ALine{{Fn: f, Line: 10}}}
 	lg := vlib.ALoc{Map: m, Rel: 4, Lines: []vlib.ALine{{Fn: g, Line: 20}}}
@@ -70,13 +72,72 @@ func session(lines []string) *vdrv.Result {
 var refCache = map[string][]byte{}
 var refErr = map[string]bool{}
 
+// options behind which process-wide helpers sit: their references come from a FRESH PROCESS (an in-process
+// reference would share whatever the process has cached and agree with a stale answer)
+func needsFreshProcess(lines []string) bool {
+	for _, l := range lines {
+		if strings.HasPrefix(l, "source_path=") || strings.HasPrefix(l, "trim_path=") {
+			return true
+		}
+	}
+	return false
+}
+
+type childResult struct {
+	Files map[string][]byte `json:"files"`
+}
+
+// childSession runs the lines in a new process of this very binary (-extra child=<file with the JSON lines>).
+func childSession(lines []string) map[string][]byte {
+	f, err := os.CreateTemp("", "c10-child-*.json")
+	if err != nil {
+		run.Infra(err.Error())
+		return nil
+	}
+	defer os.Remove(f.Name())
+	json.NewEncoder(f).Encode(lines)
+	f.Close()
+	out := f.Name() + ".out"
+	defer os.Remove(out)
+	cmd := exec.Command(os.Args[0], "-extra", "child="+f.Name(), "-out", out)
+	cmd.Env = os.Environ()
+	if b, err := cmd.CombinedOutput(); err != nil {
+		run.Infra(fmt.Sprintf("child session: %v: %s", err, b))
+		return nil
+	}
+	var res childResult
+	b, err := os.ReadFile(out)
+	if err != nil || json.Unmarshal(b, &res) != nil {
+		run.Infra("child session: no result")
+		return nil
+	}
+	return res.Files
+}
+
+func childMain(path, out string) {
+	var lines []string
+	b, _ := os.ReadFile(path)
+	json.Unmarshal(b, &lines)
+	prof = theProfile()
+	r := session(lines)
+	jb, _ := json.Marshal(childResult{Files: r.Files})
+	os.WriteFile(out, jb, 0o644)
+}
+
 // reference output: fresh session, only the assignments in effect, then the line
 func reference(prefix []string, cmd string) ([]byte, bool) {
 	key := strings.Join(prefix, "\n") + "\n=>" + cmd
 	if b, ok := refCache[key]; ok {
 		return b, refErr[key]
 	}
-	r := session(append(append([]string{}, prefix...), cmd+" >ref"))
+	var files map[string][]byte
+	if needsFreshProcess(prefix) {
+		files = childSession(append(append([]string{}, prefix...), cmd+" >ref"))
+		run.Counter("fresh_process_references", 1)
+	} else {
+		files = session(append(append([]string{}, prefix...), cmd+" >ref")).Files
+	}
+	r := struct{ Files map[string][]byte }{files}
 	b, ok := r.Files["ref"]
 	refCache[key] = b
 	refErr[key] = !ok
@@ -302,6 +363,10 @@ func firstDiff(a, b []byte) string {
 
 func main() {
 	run = vlib.NewRun("C10")
+	if strings.HasPrefix(run.Extra, "child=") {
+		childMain(strings.TrimPrefix(run.Extra, "child="), run.OutPath)
+		return
+	}
 	prof = theProfile()
 	only := run.Extra // "", "c09" (bad/noop lines and error queries only) or "c10"
 	run.EachCase(func(i int, raw json.RawMessage) {
@@ -331,5 +396,5 @@ func main() {
 	}
 	sort.Strings(keys)
 	run.Counter("distinct_reference_sessions", len(keys))
-	run.Finish("interactive: every history of Session.tla (lines drawn from 10 mutating report commands with arguments, 12 option assignments, 16 rejected lines and 6 ignored lines; length <= 2, thorough 3) typed into a real session, each command compared byte-for-byte with a fresh session that saw only the assignments in effect, plus a probe command at the end; web: random sequences and concurrent mixes of 2-4 requests out of 30 (views with focus/ignore/hide/granularity/sample index/tag options, download, malformed queries) against the real handlers, each response compared with the same request on a fresh server; non-trivial = history of at least two lines, or a web script, counted distinct")
+	run.Finish("interactive: every history of Session.tla (lines drawn from 10 mutating report commands with arguments, 12 option assignments, 16 rejected lines and 6 ignored lines; length <= 2, thorough 3) typed into a real session, each command compared byte-for-byte with a fresh session that saw only the assignments in effect (a fresh PROCESS for the directed histories over source_path / trim_path, whose helpers keep process-wide state), plus a probe command at the end; web: random sequences and concurrent mixes of 2-4 requests out of 30 (views with focus/ignore/hide/granularity/sample index/tag options, download, malformed queries) against the real handlers, each response compared with the same request on a fresh server; non-trivial = history of at least two lines, or a web script, counted distinct")
 }
